@@ -1,4 +1,5 @@
 import Fs.Proofs.Vars
+import Fs.Proofs.Params
 /-!
 # C15 — session variables substitute exactly, per connection
 
@@ -65,6 +66,37 @@ theorem C15_undefined (env : Env) (pre : List Tok) (w : List Char) (post : List 
 /-- a statement whose inlining fails changes no dict and reaches no later phase: `use` returns the error and
     the world is the same -/
 theorem C15_no_execution (w : World) (i : Nat) (t : List Char) : (wstep w (.use i t)).1 = w := rfl
+
+/-! ## bound parameter values are data, not references -/
+
+/-- **A `$word` inside a bound value is never a variable reference**: for every dict, every template of `%`-free
+    text / `%%` / `%s` whose own text references no variable, and every list of bound values — whatever `$name`s
+    (defined or not) they contain — the text executed is the template with the values inserted verbatim: the
+    variable phase has run before the values arrive and never sees them. -/
+theorem C15_bound_values_not_inlined (env : Env) (ps : List Fs.Params.Piece) (hw : ∀ p ∈ ps, p.wf)
+    (hr : hasRef false (Fs.Params.render ps) = false) (vs : List (List Char)) (hne : vs ≠ []) :
+    execBound env (Fs.Params.render ps) (.seq vs) = some (Fs.Params.substSeq ps vs, false) := by
+  have hi : Impl.inline env (Fs.Params.render ps) = .ok (Fs.Params.render ps) := C15_no_reference env _ hr
+  have he : (Fs.Params.Args.seq vs).isEmpty = false := by
+    cases vs with
+    | nil => exact absurd rfl hne
+    | cons v vs => rfl
+  simp only [execBound, Fs.Params.phases, inlineOpt, hi, Option.map_some, Fs.Params.rewrite, he,
+    Fs.Params.Style.clientSide, Bool.not_false, Bool.and_self, if_true]
+  rw [show Fs.Params.fmt (Fs.Params.render ps) (.seq vs) = Fs.Params.substSeq ps vs from Fs.Params.fmtGo_seq vs ps hw vs]
+
+example : execBound [("USD".toList, "5".toList)] "select %s".toList (.seq ["'costs $USD'".toList]) =
+    some (.ok "select 'costs $USD'".toList, false) := by decide
+
+/-- with references in the command the two phases compose: first the variables, then the values -/
+theorem C15_bound_phases (env : Env) (cmd : List Char) (a : Fs.Params.Args) :
+    execBound env cmd a = (inlineOpt env cmd).map fun c => Fs.Params.rewrite .pyformat c a := rfl
+
+/-- known finding C15/percent-in-value-with-params: a variable value containing `%` is pasted into the text that
+    `%` then formats — `set p = '50%'` makes `execute("select $p, %s", (1,))` fail inside the formatting -/
+theorem finding_C15_percent_in_value_with_params :
+    execBound [("P".toList, "'50%'".toList)] "select $p, %s".toList (.seq [['1']]) = some (.unsupported, false) ∧
+    execBound [("P".toList, "'a%sb'".toList)] "select $p, %s".toList (.seq [['1']]) = some (.err, false) := by decide
 
 /-! ## SET / UNSET / scope -/
 
